@@ -30,6 +30,7 @@ CHANNEL_TABLES = ("nameplates", "nameplate_sides", "mailboxes", "mailbox_sides",
 USAGE_TABLES = ("nameplates", "mailboxes", "client_versions", "current")
 
 SCRATCH_ROOT = None
+_OPTS_CACHE = {}
 
 
 def scratch_root():
@@ -224,8 +225,16 @@ class World(object):
             self.reactor = MemoryReactorClock()
             self.reactor.rightNow = self.t
             self.dbs = []
-            opts = server_tap.Options()
-            opts.parseOptions(self.argv())
+            key = tuple(self.argv())
+            opts = _OPTS_CACHE.get(key)
+            if opts is None:
+                # the real option parser; the parsed result only depends on argv, so it is reused
+                # (re-parsed whenever argv differs, e.g. a new scratch directory)
+                opts = server_tap.Options()
+                opts.parseOptions(list(key))
+                if len(_OPTS_CACHE) > 64:
+                    _OPTS_CACHE.clear()
+                _OPTS_CACHE[key] = opts
             self.options = opts
             self.service = server_tap.makeService(opts, reactor=self.reactor)
             timers = [s for s in self.service if isinstance(s, TimerService)]
